@@ -19,7 +19,7 @@ RULE = ("every core word (length elem relem add sub mul div mod ?empty/!empty ?f
         "?match/!match value hex dec oct bin type pos ?N/!N dup over swap rot drop and the 12 comparison words) applied to "
         "every operand (unary) / ordered operand pair (binary) from a pool of ~45 values (boundary integers per domain, "
         "bool and slot-type constants, strings incl. empty/NUL/high bytes/regex-like, nested and heterogeneous sequences, a "
-        "closure), with 0-4 filler values below, the stack being built by 4 different histories.  Non-trivial: depth >= 5 "
+        "closure), with 0-4 filler values below, the stack being built by 4 different histories; ?find/?starts/?ends and their negations on every haystack of length <= 6 (thorough: 8) x every needle of length <= 4 (5) over a two-letter alphabet, as strings, as sequences of integers and as sequences of mixed elements (self-overlapping needles, repeated prefixes).  Non-trivial: depth >= 5 "
         "or a drop/rot/over in the history, or an operand that is empty / contains NUL / is of an unsupported type.  "
         "Distinct by (word, operands, filler, history).")
 
@@ -254,6 +254,8 @@ def work(task):
             cases = [(w, (a, b)) for w in BINARY for a in POOL for b in POOL]
         elif kind == "stream":
             cases = stream_cases()
+        elif kind == "search":
+            cases = [("search", c) for c in search_cases(thorough)]
         else:
             pool3 = POOL[::3]
             cases = [(w, (a, b, c)) for w in TERNARY for a in pool3 for b in pool3 for c in pool3]
@@ -263,6 +265,9 @@ def work(task):
             w, ops = cases[idx]
             if kind == "stream":
                 check_stream(drv, ev, ops, w)
+                continue
+            if kind == "search":
+                check_search(drv, ev, ops[0], ops[1], ops[2], thorough)
                 continue
             rnd = random.Random((seed << 20) ^ idx ^ hash(kind) & 0xffff)
             depth_below = rnd.choice([0, 0, 1, 2, 3, 4]) if kind != "ternary" else rnd.choice([0, 1, 3])
@@ -282,7 +287,58 @@ def work(task):
     return ev
 
 
-def ncases(kind):
+# ---- ?find / ?starts / ?ends: every haystack and needle over a two-letter alphabet (self-overlapping needles,
+# repeated prefixes: what a hand-written search gets wrong), strings and sequences alike
+
+SEARCH_ALPHABETS = {"str": ('"%s"', ["a", "b"], ""), "seq": ("[%s]", ["1", "2"], ", "), "seq-mixed": ("[%s]", ["[1]", '"x"'], ", ")}
+SEARCH_WORDS = ["?find", "!find", "?starts", "!starts", "?ends", "!ends"]
+
+
+def search_words_of(maxlen):
+    import itertools
+    return [w for n in range(maxlen + 1) for w in itertools.product((0, 1), repeat=n)]
+
+
+def search_cases(thorough):
+    hs = search_words_of(8 if thorough else 6)
+    return [(kind, h, w) for kind in SEARCH_ALPHABETS for h in hs for w in SEARCH_WORDS]
+
+
+def check_search(drv, ev, kind, h, w, thorough):
+    fmt, letters, sep = SEARCH_ALPHABETS[kind]
+    lit = lambda x: fmt % sep.join(letters[i] for i in x)
+    needles = search_words_of(5 if thorough else 4)
+    q = "[%s] elem (|N| %s N %s N length)" % (", ".join(lit(n) for n in needles), lit(h), w)     # (`elem` numbers the needles)
+    r = drv.run(q, limit=1000)
+    def holds(n):
+        k = len(n)
+        if w[1:] == "find":
+            res = any(h[i:i + k] == n for i in range(len(h) - k + 1))
+        elif w[1:] == "starts":
+            res = h[:k] == n
+        else:
+            res = (h[len(h) - k:] == n) if k <= len(h) else False
+        return res if w[0] == "?" else not res
+    want = [(n, pos) for pos, n in enumerate(needles) if holds(n)]
+    overlapping = any(len(n) >= 3 and n[0] == n[1] or len(n) >= 4 and n[:2] == n[2:4] for n, _ in want)
+    ev.case(key=("search", kind, h, w), nontrivial=len(h) >= 3)
+    ev.label("search:" + kind)
+    if "error" in r or "cerror" in r or r["stderr"]:
+        ev.violations.append({"property": PID, "query": q, "reason": "search query failed: %r" % {k: v for k, v in r.items() if k != "res"},
+                              "signature": "C11:search:%s:%s:%r" % (kind, w, h)})
+        return
+    # each result: the needle's length on top of the needle, the needle keeps the position it came with
+    got = [(int(s_[-1]["v"]), s_[-2]["p"]) for s_ in r["res"]]
+    if got != [(len(n), pos) for n, pos in want]:
+        miss = [lit(n) for n, pos in want if (len(n), pos) not in got][:3]
+        extra = [lit(needles[p_]) for l_, p_ in got if (l_, p_) not in [(len(n), pos) for n, pos in want]][:3]
+        ev.violations.append({"property": PID, "query": q, "signature": "C11:search:%s:%s:%r" % (kind, w, h),
+                              "reason": "%s %s: needles that should pass but do not %r; that pass but should not %r" % (lit(h), w, miss, extra)})
+
+
+def ncases(kind, thorough=False):
+    if kind == "search":
+        return len(search_cases(thorough))
     if kind == "unary":
         return len(UNARY) * len(POOL)
     if kind == "binary":
@@ -296,8 +352,8 @@ def main(tier, seed):
     t0 = time.time()
     ev = Evidence()
     tasks = []
-    for kind in ("unary", "binary", "ternary", "stream"):
-        n = ncases(kind)
+    for kind in ("unary", "binary", "ternary", "stream", "search"):
+        n = ncases(kind, tier == "thorough")
         step = max(50, n // 40 + 1)
         tasks += [(kind, lo, lo + step, seed, tier == "thorough") for lo in range(0, n, step)]
     ev.merge(run_pool(work, tasks))
@@ -310,7 +366,8 @@ def main(tier, seed):
                                "exhaustive=true: every (word, operand tuple) over the pool is enumerated; fillers and histories are sampled per tuple"],
                   health={"all histories used": all(ev.labels.get("history:" + h, 0) > 0 for h in ("api", "api-pos", "literals", "junk-drop", "deep-junk", "swap", "rot", "mixed")),
                           "soft errors agreed": ev.labels.get("soft-error-agreed", 0) > 50,
-                          "renumbering exercised": ev.labels.get("stream:renumbered", 0) > 200})
+                          "renumbering exercised": ev.labels.get("stream:renumbered", 0) > 200,
+                          "exhaustive search cases (strings, sequences, sequences of mixed elements)": all(ev.labels.get("search:" + k, 0) > 500 for k in SEARCH_ALPHABETS)})
 
 
 def replay(path):
